@@ -13,7 +13,7 @@ PROPERTY {p['id']} - {p['title']}
 
 YOUR WORKSPACE: the git worktree {wt} (a checkout of the repository). Work ONLY inside {wt} and your own scratch directory {wt}-scratch. Do NOT read or touch /repo, /verif, or any other directory; do not look for existing verification tooling. There is no network.
 
-WHAT KIND OF CHANGE: something a developer could plausibly commit (a refactor gone wrong, an "optimisation", a dropped re-check, a reordered pair of statements, an off-by-one, a wrong comparison, a missing case). It must need something specific to manifest - a particular interleaving of threads, a multi-step sequence of operations, an unusual input/configuration, or two cooperating sites that each look fine alone - NOT something that every ordinary use would expose at once (a change that makes every program hang or crash immediately is useless). Do not touch comments only, do not add dead code, do not change public signatures. Keep it small (1-15 changed lines in 1-2 files under libs/pika/**). Do not modify any macro named PIKA_VERIF_POINT or lines containing it (leave them as they are; they expand to nothing). {focus}
+WHAT KIND OF CHANGE: something a developer could plausibly commit (a refactor gone wrong, an "optimisation", a dropped re-check, a reordered pair of statements, an off-by-one, a wrong comparison, a missing case). It must need something specific to manifest - a particular interleaving of threads, a multi-step sequence of operations, an unusual input/configuration, or two cooperating sites that each look fine alone - NOT something that every ordinary use would expose at once (a change that makes every program hang or crash immediately is useless). Do not touch comments only, do not add dead code, do not change public signatures. Keep it small (1-15 changed lines in 1-2 files under libs/pika/**). Never use `git stash` (it is shared between worktrees; to test the original code use `git diff > file; git checkout -- .; ...; git apply file`). Do not modify any macro named PIKA_VERIF_POINT or lines containing it (leave them as they are; they expand to nothing). {focus}
 
 BUILDING (the in-tree _build dir is absent in your worktree; use this out-of-tree recipe, ~1-2 min on 16 cores, please use at most 8 build jobs):
   cmake -G Ninja -S {wt} -B {wt}-scratch/build -DCMAKE_BUILD_TYPE=RelWithDebInfo -Dfmt_DIR=/usr/lib/x86_64-linux-gnu/cmake/fmt -DPIKA_WITH_MALLOC=system -DPIKA_WITH_TESTS=OFF -DPIKA_WITH_EXAMPLES=OFF -DPIKA_WITH_UNITY_BUILD=ON -DPIKA_WITH_MPI=ON -DCMAKE_CXX_FLAGS="-Wno-error"
